@@ -409,6 +409,69 @@ def recovered_outer(inner: int, rec: int, outer: int) -> bool:
     return (not leaked) or fail(why='the forgiven branch appears in the trace of a later failure', leaked=leaked, body=body)
 
 
+STORED = []
+
+
+def _inner_then_render(t):
+    try:
+        return glom(t, 'zz')
+    except GlomError as e:
+        str(e)                       # e.g. logged by the callable
+        raise
+
+
+def _inner_plain(t):
+    return glom(t, 'zz')
+
+
+def _raise_stored(t):
+    raise STORED[0]
+
+
+def rendered_before(how: int, depth: int, wrap: int) -> bool:
+    """the error raised inside the spec is an object that has been rendered (str) before -- by the callable that caught and
+    re-raised the error of a nested glom() call, or in an earlier glom() call: the message of THIS call's error must still
+    begin with this call's root target and list this call's specs down to the one that raised"""
+    start()
+    how, depth, wrap = concretize(how, 0, 3), concretize(depth, 0, 2), concretize(wrap, 0, 2)
+    if how is OUT or depth is OUT or wrap is OUT:
+        return True
+    del STORED[:]
+    if how in (2, 3):
+        try:
+            glom({'earlier': 1}, 'nope')
+        except GlomError as e:
+            STORED.append(e)
+            if how == 3:
+                str(e)
+    fn = [_inner_then_render, _inner_plain, _raise_stored, _raise_stored][how]
+    inner = [fn, Coalesce('absent', fn), Or(fn)][wrap]
+    spec, target = inner, {'b': 1}
+    for i in range(depth):
+        spec = ('k%d' % i, spec) if i % 2 == 0 else {'out': Pipe('k%d' % i, spec)}
+        target = {'k%d' % i: target}
+    # nest from the outside in: the outermost key is the last one added
+    try:
+        glom(target, spec)
+        return fail(why='expected failure')
+    except GlomError as e:
+        s = str(e)
+    parsed = parse(s)
+    if parsed is None:
+        return fail(why='header', s=s)
+    body = parsed[1]
+    reach('rendered_before')
+    if body[0] != ' - Target: ' + _format_trace_value(target, TRACE_WIDTH - len(' - Target: ')):
+        return fail(why="the trace must begin with this call's root target", line=body[0], s=s)
+    texts = [_strip(l, 'Spec') for l in body if SPEC_LINE.match(l)]
+    if not texts or not texts[0].startswith(bbrepr(spec)[:25]):
+        return fail(why="the first Spec line must be this call's root spec", texts=texts)
+    name = '<function %s ' % fn.__name__
+    if not any(t.startswith(name) for t in texts):
+        return fail(why='the spec that raised (the callable) must be listed', texts=texts)
+    return ('PathAccessError' in s.splitlines()[-1]) or fail(why='last line names the original error', last=s.splitlines()[-1])
+
+
 class R:
     """object with a repr of a given length and a (possibly failing) len()"""
     def __init__(self, n, ln):
@@ -498,6 +561,8 @@ def obligations(tier):
     obs.append(Ob(branch_kinds, pre='0 <= kind <= 4 and 2 <= n_fail <= 3', name='branch_kinds', timeout=200))
     obs.append(Ob(equal_targets, pre='0 <= kind <= 3 and 0 <= where <= 1', name='equal_targets', timeout=200))
     obs.append(Ob(recovered_outer, pre='0 <= inner <= 2 and 0 <= rec <= 3 and 0 <= outer <= 2', name='recovered_outer', timeout=300))
+    obs.append(Ob(rendered_before, pre='0 <= how <= 3 and 0 <= depth <= 2 and 0 <= wrap <= 2', name='rendered_before', timeout=300))
+    obs.append(Ob(rendered_before, pre='0 <= how <= 3 and 0 <= depth <= 2 and 0 <= wrap <= 2', twin='rendered_before', name='rendered_before'))
     for nk in range(9):
         obs.append(Ob(truncate, fixed={'nk': nk}, pre='14 <= maxlen <= 121 and 0 <= lk <= 6', name='truncate_n%d' % nk, timeout=300))
     for depth in range(1, 4 if q else 5):
